@@ -573,4 +573,213 @@ theorem parsePath_renderSegs (cfg : LeafCfg) (hdot : cfg.useDot = false) (p : Li
   · rw [lf_splitOn_joinWith '.' _ hnil (fun s hs => (segStrs_ok p h s hs).2)]
     exact parsePathSegs_segStrs p h
 
+/-! ### sub-values of an admissible Map -/
+
+/-- the domain of the resolution clause -/
+structure Good (v : Val) : Prop where
+  safe : pathSafe v = true
+  noLL : Denote.noListInList v = true
+  wf : v.wf = true
+  fit : listsFit v = true
+
+theorem lookup_of_mem : ∀ (kvs : Entries) (k : Str) (w : Val), distinctKeys kvs = true →
+    (k, w) ∈ kvs → lookup k kvs = some w
+  | [], _, _, _, h => by simp at h
+  | (k', v') :: rest, k, w, hd, h => by
+      simp only [distinctKeys, Bool.and_eq_true, Bool.not_eq_true', List.any_eq_false,
+        beq_iff_eq] at hd
+      rcases List.mem_cons.1 h with e | e
+      · injection e with e1 e2; subst e1; subst e2; simp [lookup]
+      · have hne : ¬ k = k' := by
+          intro e'; subst e'; exact hd.1 (k, w) e rfl
+        simp only [lookup, hne, if_false]
+        exact lookup_of_mem rest k w hd.2 e
+
+theorem entries_sub : ∀ (kvs : Entries) (k : Str) (w : Val), pathSafeEntries kvs = true →
+    Denote.noLL_entries kvs = true → Val.wfEntries kvs = true → listsFitE kvs = true →
+    (k, w) ∈ kvs → keySafe k = true ∧ Good w
+  | [], _, _, _, _, _, _, h => by simp at h
+  | (k', v') :: rest, k, w, h1, h2, h3, h4, h => by
+      simp only [pathSafeEntries, Bool.and_eq_true] at h1
+      simp only [Denote.noLL_entries, Bool.and_eq_true] at h2
+      simp only [Val.wfEntries, Bool.and_eq_true] at h3
+      simp only [listsFitE, Bool.and_eq_true] at h4
+      rcases List.mem_cons.1 h with e | e
+      · injection e with e1 e2; subst e1; subst e2
+        exact ⟨h1.1.1, ⟨h1.1.2, h2.1, h3.1, h4.1⟩⟩
+      · exact entries_sub rest k w h1.2 h2.2 h3.2 h4.2 e
+
+theorem good_entry (kvs : Entries) (k : Str) (w : Val) (hg : Good (.map kvs)) (h : (k, w) ∈ kvs) :
+    keySafe k = true ∧ Good w ∧ lookup k kvs = some w := by
+  obtain ⟨h1, h2, h3, h4⟩ := hg
+  simp only [pathSafe] at h1
+  simp only [Denote.noListInList] at h2
+  simp only [Val.wf, Bool.and_eq_true] at h3
+  simp only [listsFit] at h4
+  obtain ⟨hk, hw⟩ := entries_sub kvs k w h1 h2 h3.1 h4 h
+  exact ⟨hk, hw, lookup_of_mem kvs k w h3.2 h⟩
+
+theorem noLL_members_cons (x : Val) (xs : List Val) (h : Denote.noLL_members (x :: xs) = true) :
+    x.isList = false ∧ Denote.noListInList x = true ∧ Denote.noLL_members xs = true := by
+  cases x <;> simp_all [Denote.noLL_members, Val.isList]
+
+theorem members_sub : ∀ (xs : List Val) (j : Nat) (y : Val), pathSafeList xs = true →
+    Denote.noLL_members xs = true → Val.wfList xs = true → listsFitL xs = true →
+    xs[j]? = some y → Good y ∧ y.isList = false
+  | [], _, _, _, _, _, _, h => by simp at h
+  | x :: xs, j, y, h1, h2, h3, h4, h => by
+      simp only [pathSafeList, Bool.and_eq_true] at h1
+      obtain ⟨hx, h2a, h2b⟩ := noLL_members_cons x xs h2
+      simp only [Val.wfList, Bool.and_eq_true] at h3
+      simp only [listsFitL, Bool.and_eq_true] at h4
+      cases j with
+      | zero =>
+        simp only [List.getElem?_cons_zero, Option.some.injEq] at h
+        subst h
+        exact ⟨⟨h1.1, h2a, h3.1, h4.1⟩, hx⟩
+      | succ j =>
+        simp only [List.getElem?_cons_succ] at h
+        exact members_sub xs j y h1.2 h2b h3.2 h4.2 h
+
+theorem good_member (xs : List Val) (j : Nat) (y : Val) (hg : Good (.list xs))
+    (h : xs[j]? = some y) : Good y ∧ y.isList = false ∧ j ≤ 2147483647 := by
+  obtain ⟨h1, h2, h3, h4⟩ := hg
+  simp only [pathSafe] at h1
+  simp only [Denote.noListInList] at h2
+  simp only [Val.wf] at h3
+  simp only [listsFit, Bool.and_eq_true, decide_eq_true_eq] at h4
+  obtain ⟨hy, hl⟩ := members_sub xs j y h1 h2 h3 h4.2 h
+  have hj : j < xs.length := by
+    rcases Nat.lt_or_ge j xs.length with hlt | hge
+    · exact hlt
+    · rw [List.getElem?_eq_none hge] at h; cases h
+  exact ⟨hy, hl, by omega⟩
+
+/-! ### inversion of `leafSegs` membership -/
+
+theorem mem_leafSegsEntries : ∀ (kvs : Entries) (p : List Seg) (x : Val),
+    (p, x) ∈ leafSegsEntries kvs →
+    ∃ k w p', (k, w) ∈ kvs ∧ p = Seg.key k :: p' ∧ (p', x) ∈ leafSegs w
+  | [], _, _, h => by simp [leafSegsEntries] at h
+  | (k, v) :: rest, p, x, h => by
+      have hl : leafSegsEntries ((k, v) :: rest)
+          = (leafSegs v).map (fun pv => (Seg.key k :: pv.1, pv.2)) ++ leafSegsEntries rest := rfl
+      rw [hl, List.mem_append] at h
+      rcases h with h | h
+      · obtain ⟨pv, hpv, e⟩ := List.mem_map.1 h
+        injection e with e1 e2
+        subst e1; subst e2
+        exact ⟨k, v, pv.1, by simp, rfl, hpv⟩
+      · obtain ⟨k', w, p', hm, hp, hx⟩ := mem_leafSegsEntries rest p x h
+        exact ⟨k', w, p', by simp [hm], hp, hx⟩
+
+theorem mem_leafSegsList : ∀ (xs : List Val) (n : Nat) (p : List Seg) (x : Val),
+    (p, x) ∈ leafSegsList n xs →
+    ∃ j y p', xs[j]? = some y ∧ p = Seg.idx (n + j) :: p' ∧ (p', x) ∈ leafSegs y
+  | [], _, _, _, h => by simp [leafSegsList] at h
+  | x0 :: xs, n, p, x, h => by
+      have hl : leafSegsList n (x0 :: xs)
+          = (leafSegs x0).map (fun pv => (Seg.idx n :: pv.1, pv.2)) ++ leafSegsList (n + 1) xs := rfl
+      rw [hl, List.mem_append] at h
+      rcases h with h | h
+      · obtain ⟨pv, hpv, e⟩ := List.mem_map.1 h
+        injection e with e1 e2
+        subst e1; subst e2
+        exact ⟨0, x0, pv.1, by simp, rfl, hpv⟩
+      · obtain ⟨j, y, p', hm, hp, hx⟩ := mem_leafSegsList xs (n + 1) p x h
+        refine ⟨j + 1, y, p', by simpa using hm, ?_, hx⟩
+        rw [hp]; congr 2; omega
+
+/-- below a non-list value a segment path never starts with an index -/
+theorem leafSegs_head_nonlist (w : Val) (hw : w.isList = false) (p : List Seg) (x : Val)
+    (h : (p, x) ∈ leafSegs w) : ∀ i r, p = Seg.idx i :: r → False := by
+  intro i r e
+  cases w with
+  | map kvs =>
+    simp only [leafSegs] at h
+    obtain ⟨k, w', p', _, hp, _⟩ := mem_leafSegsEntries kvs p x h
+    rw [hp] at e; cases e
+  | list xs => simp [Val.isList] at hw
+  | null => simp [leafSegs] at h; rw [h.1] at e; cases e
+  | bool _ => simp [leafSegs] at h; rw [h.1] at e; cases e
+  | num _ => simp [leafSegs] at h; rw [h.1] at e; cases e
+  | str _ => simp [leafSegs] at h; rw [h.1] at e; cases e
+
+/-! ### frontier steps along a leaf path -/
+
+theorem run_key_step (k : Str) (hk : k ≠ ['*']) (kvs : Entries) (w : Val) (rest : List Denote.Step)
+    (hl : lookup k kvs = some w) :
+    Denote.run (Denote.keyStep ⟨k, false, 0⟩ :: rest) [.map kvs] = Denote.run rest [w] := by
+  simp [Denote.keyStep, Denote.plainStep, hk, Denote.run, Denote.stepKey, Denote.selKey, hl]
+
+theorem run_idx_step (k : Str) (i : Nat) (kvs : Entries) (xs : List Val) (y : Val)
+    (rest : List Denote.Step) (hl : lookup k kvs = some (.list xs)) (hy : xs[i]? = some y) :
+    Denote.run (Denote.keyStep ⟨k, true, i⟩ :: rest) [.map kvs] = Denote.run rest [y] := by
+  simp [Denote.keyStep, Denote.run, Denote.expand, Denote.pick, Denote.selKey, hl, hy]
+
+theorem expand_nonlist (x : Val) (h : x.isList = false) : Denote.expand x = [x] := by
+  cases x <;> simp_all [Denote.expand, Val.isList]
+
+/-- along a leaf's segment path: the path is admissible, and the frontier semantics walks from
+    the value to exactly that leaf -/
+theorem resolve_core : ∀ (n : Nat) (p : List Seg) (v x : Val), p.length < n → Good v →
+    v.isList = false → (p, x) ∈ leafSegs v →
+    segsOk p = true ∧ Denote.run ((segKeys p).map Denote.keyStep) [v] = [x] ∧ x.isList = false := by
+  intro n
+  induction n with
+  | zero => intro p v x h; omega
+  | succ n ih =>
+    intro p v x hlen hg hv h
+    cases v with
+    | list xs => simp [Val.isList] at hv
+    | null => simp [leafSegs] at h; obtain ⟨hp, hx⟩ := h; subst hp; subst hx; simp [segsOk, segKeys, Denote.run, Val.isList]
+    | bool _ => simp [leafSegs] at h; obtain ⟨hp, hx⟩ := h; subst hp; subst hx; simp [segsOk, segKeys, Denote.run, Val.isList]
+    | num _ => simp [leafSegs] at h; obtain ⟨hp, hx⟩ := h; subst hp; subst hx; simp [segsOk, segKeys, Denote.run, Val.isList]
+    | str _ => simp [leafSegs] at h; obtain ⟨hp, hx⟩ := h; subst hp; subst hx; simp [segsOk, segKeys, Denote.run, Val.isList]
+    | map kvs =>
+      simp only [leafSegs] at h
+      obtain ⟨k, w, p', hm, hp, hx⟩ := mem_leafSegsEntries kvs p x h
+      subst hp
+      obtain ⟨hk, hgw, hl⟩ := good_entry kvs k w hg hm
+      have hstar : k ≠ ['*'] := by
+        intro e; have := ((keySafe_iff k).1 hk).2.2.2; rw [e] at this; simp at this
+      simp only [List.length_cons] at hlen
+      by_cases hwl : w.isList = true
+      · cases w with
+        | list xs =>
+          simp only [leafSegs] at hx
+          obtain ⟨j, y, p'', hy, hp', hx'⟩ := mem_leafSegsList xs 0 p' x hx
+          rw [Nat.zero_add] at hp'
+          subst hp'
+          simp only [List.length_cons] at hlen
+          obtain ⟨hgy, hyl, hj⟩ := good_member xs j y hgw hy
+          obtain ⟨ih1, ih2, ih3⟩ := ih p'' y x (by omega) hgy hyl hx'
+          refine ⟨?_, ?_, ih3⟩
+          · simp [segsOk, hk, hj, ih1]
+          · simp only [segKeys, List.map_cons]
+            rw [run_idx_step k j kvs xs y _ hl hy]; exact ih2
+        | _ => simp [Val.isList] at hwl
+      · have hwl' : w.isList = false := by simpa using hwl
+        have hno := leafSegs_head_nonlist w hwl' p' x hx
+        obtain ⟨ih1, ih2, ih3⟩ := ih p' w x (by omega) hgw hwl' hx
+        refine ⟨?_, ?_, ih3⟩
+        · rw [segsOk_key_other k p' hno, hk, ih1]; rfl
+        · rw [segKeys_key_other k p' hno, List.map_cons, run_key_step k hstar kvs w _ hl]
+          exact ih2
+
+/-- the resolution clause on segment paths -/
+theorem leaf_resolves (cfg : LeafCfg) (hdot : cfg.useDot = false) (kvs : Entries)
+    (hg : Good (.map kvs)) :
+    ∀ pv ∈ leafSegs (.map kvs),
+      parsePath (renderSegs cfg [] pv.1) = .ok (segKeys pv.1)
+      ∧ Denote.path ((segKeys pv.1).map Denote.keyStep) (.map kvs) = [pv.2] := by
+  intro pv hpv
+  obtain ⟨h1, h2, h3⟩ := resolve_core (pv.1.length + 1) pv.1 (.map kvs) pv.2 (by omega) hg rfl hpv
+  refine ⟨parsePath_renderSegs cfg hdot pv.1 h1, ?_⟩
+  unfold Denote.path
+  simp only [h2]
+  split
+  · rfl
+  · simp [expand_nonlist pv.2 h3]
+
 end Mxj
